@@ -906,8 +906,8 @@ func propC19() *Prop {
 			var js []*sym.Job
 			for n := int64(1); n <= tierPick(tier, 2, 2); n++ {
 				for ticks := int64(0); ticks <= tierPick(tier, 1, 2); ticks++ {
-					if n == 2 && ticks > tierPick(tier, 0, 1) {
-						continue
+					if n == 2 && ticks > 0 {
+						continue // two backends and a firing ticker: > 200000 schedules at two pre-emptions
 					}
 					pre := 2 // three pre-emptions exceed 200000 schedules as soon as a tick or a second backend is involved
 					if tier == "thorough" && n == 1 && ticks == 0 {
@@ -932,7 +932,7 @@ func propC19() *Prop {
 			return js
 		},
 		Assumptions: append([]string{"claimed for the balancer side only: LoadBalancer.Stop, the real health-check goroutine (startHealthChecks -> startActiveHealthChecks: initial round, ticker loop, probe goroutines; the ticker fires at most `ticks` times, at any point of the schedule, and a select with several ready cases picks any of them), and the WebSocket pool's Shutdown; http.Server.Shutdown, request draining, signals and the shutdown-timeout bound are net/http / OS and not encodable", "the real performHealthCheck runs; (*http.Client).Do is replaced by a backend model that counts the probe, yields and then refuses the connection, answers 200, or never answers (holds the probe until the request's context is done or the client's timeout fires); natively the real client dials a local test server that behaves the same way", "contexts are models: cancellation propagates to derived contexts; a deadline expires when virtual time reaches it, and virtual time passes only when every thread is blocked (it jumps to the earliest pending deadline); shutdown timeout 1..2 s, probe timeout 1 ms..3 s (ranges kept small so that a counterexample replays natively in real time)"}, commonAssumptions...),
-		Bounds:      map[string]string{"quick": "1-2 backends, 2 idle pooled connections, 2 top-level threads + probe goroutines, <= 1 ticker firing, <= 2 pre-emptions", "thorough": "<= 2 ticker firings (1 with two backends); <= 3 pre-emptions for the tick-free races, Stop || Stop, the probe-in-flight and pool pairs, <= 2 where a ticker fires"},
+		Bounds:      map[string]string{"quick": "1-2 backends, 2 idle pooled connections, 2 top-level threads + probe goroutines, <= 1 ticker firing, <= 2 pre-emptions", "thorough": "<= 2 ticker firings (none with two backends); <= 3 pre-emptions for the tick-free races, Stop || Stop, the probe-in-flight and pool pairs, <= 2 where a ticker fires"},
 		Outside:     []string{"http.Server.Shutdown / in-flight client requests / SIGTERM handling", "more than 1 (quick) / 2 (thorough) ticker firings during shutdown"},
 	}
 }
